@@ -73,6 +73,7 @@ type Ctx struct {
 	lastFile *os.File
 	start    time.Time
 	maxSamp  int
+	kept     []*retained
 }
 
 // New creates a context.
@@ -388,4 +389,60 @@ func (c *Ctx) Violations() int {
 	c.mu.Lock()
 	defer c.mu.Unlock()
 	return len(c.vio)
+}
+
+// retained is one result of an earlier library call that the monitor keeps
+// hold of: the slice as it was handed out and a private copy of its bytes.
+type retained struct {
+	live, copy []byte
+	what       string
+	idx        int64
+	name       string
+	input      any
+}
+
+// Retain keeps hold of a byte slice the library handed out (at most 48 at a
+// time, oldest dropped first) and first re-examines everything retained so
+// far: a result that a LATER call of the library changed - because it lives
+// in a pooled or shared buffer - is reported as <sigPrefix>:earlier-result-
+// changed-by-a-later-call, against the case that received it.
+func (c *Ctx) Retain(sigPrefix, what string, b []byte) {
+	c.CheckRetained(sigPrefix)
+	if len(b) == 0 {
+		return
+	}
+	c.mu.Lock()
+	r := &retained{live: b, copy: append([]byte(nil), b...), what: what, idx: c.idx - 1, name: c.curName, input: c.curInput}
+	c.kept = append(c.kept, r)
+	if len(c.kept) > 48 {
+		c.kept = c.kept[len(c.kept)-48:]
+	}
+	c.res.Hist["results_retained_across_later_calls"]++
+	c.mu.Unlock()
+}
+
+// CheckRetained compares every retained result with its copy.
+func (c *Ctx) CheckRetained(sigPrefix string) {
+	c.mu.Lock()
+	kept := c.kept
+	c.mu.Unlock()
+	for i, r := range kept {
+		if r == nil || string(r.live) == string(r.copy) {
+			continue
+		}
+		c.FailAt(r.idx, r.name, r.input, sigPrefix+":earlier-result-changed-by-a-later-call",
+			fmt.Sprintf("%s was %q when it was returned and reads %q after later calls of the library", r.what, clip(r.copy), clip(r.live)))
+		c.mu.Lock()
+		if i < len(c.kept) && c.kept[i] == r {
+			r.copy = append([]byte(nil), r.live...)
+		}
+		c.mu.Unlock()
+	}
+}
+
+func clip(b []byte) []byte {
+	if len(b) > 300 {
+		return append(append([]byte(nil), b[:300]...), "..."...)
+	}
+	return b
 }
